@@ -382,9 +382,16 @@ fn observe<P: Props>(r: template::Render<P>, nparts: usize, fail_at: Option<usiz
         rec.evs.join(","),
         if rr.is_ok() { "ok" } else { "err" }
     );
+    // (4) the type-erased path: the rendering as a `Value` (`ToValue for Render`), formatted and as borrowed data
+    let v = {
+        use emit::value::ToValue;
+        r.to_value().to_string()
+    };
     let mut fail = None;
     if sr.is_err() {
         fail = Some("string-writer-failed".to_string());
+    } else if v != s {
+        fail = Some(format!("to_value-differs-from-string-writer({})", hcommon::hex(v.as_bytes())));
     } else if d != s {
         fail = Some(format!("display-differs-from-string-writer({})", hcommon::hex(d.as_bytes())));
     } else if rr.is_ok() && rec.evs.iter().flat_map(|e| default_bytes(e)).collect::<Vec<u8>>() != s.as_bytes() {
@@ -598,6 +605,9 @@ mod fixtures {
             fx!(std tpl; ("\\n\\t\\r\\0"); []; []),
             fx!(std tpl; ("a\\\\tb\\\n{x}"); ["x": V::Int(42)]; []),
             fx!(std tpl; ("\\\"\\'{s}\\\\"); ["s": st("ab")]; []),
+            // flags whose fill character is ':' (must not be confused with the `{name:spec}` separator)
+            fx!(nostd notpl; ("{#[emit::fmt(\":>6\")] x}|{#[emit::fmt(\":<4\")] s}|{#[emit::fmt(\":^5\")] b}"); ["x": V::Int(42), "s": st("ab"), "b": V::Bool(true)]; []),
+            fx!(nostd notpl; ("{x}", #[emit::fmt(":>6")] x: 7); ["x": V::Int(7)]; ["x": ":>6"]),
         ]
     }
 }
